@@ -8,5 +8,7 @@ func main() {
 	vkit.Main(map[string]vkit.Check{
 		"C04": {Run: c04Run, Replay: c04Replay},
 		"C03": {Run: c03Run, Replay: c03Replay},
+		"C02": {Run: c02Run, Replay: c02Replay},
+		"C20": {Run: c20Run, Replay: c20Replay},
 	})
 }
